@@ -239,7 +239,9 @@ def run_impl(module_name, cases, per_case_timeout=5.0, flags=()):
         return []
     tmp = tempfile.mkdtemp(prefix='cuv-')
     try:
-        shards = shard(list(enumerate(cases)), min(NPROC, max(1, len(cases) // 50)))
+        nsh = min(NPROC, max(1, len(cases) // 20))
+        allc = list(enumerate(cases))
+        shards = [allc[i::nsh] for i in range(nsh)]
         procs = []
         for i, sh_cases in enumerate(shards):
             inp = os.path.join(tmp, 'in%d.json' % i)
@@ -276,18 +278,18 @@ def run_impl(module_name, cases, per_case_timeout=5.0, flags=()):
 
 
 def run_model(lines):
-    """Feed lines to the extracted driver (sharded); returns list of output lines or None if no driver."""
+    """Feed lines to the extracted driver (interleaved shards); returns list of output lines or None if no driver."""
     if not lines:
         return []
     if not os.path.exists(BIN):
         return None
-    shards = shard(lines, min(NPROC, max(1, len(lines) // 100)))
+    n = min(NPROC, max(1, len(lines) // 20))
+    shards = [lines[i::n] for i in range(n)]
     procs = []
     for s in shards:
-        p = subprocess.Popen(['/bin/sh', '-c', 'ulimit -s unlimited 2>/dev/null; exec "$0"', BIN], stdin=subprocess.PIPE, stdout=subprocess.PIPE,
-                             stderr=subprocess.PIPE)
+        p = subprocess.Popen(['/bin/sh', '-c', 'ulimit -s unlimited 2>/dev/null; exec "$0"', BIN], stdin=subprocess.PIPE,
+                             stdout=subprocess.PIPE, stderr=subprocess.PIPE)
         procs.append((p, s))
-    # write in threads to avoid pipe deadlock
     import threading
     outs = [None] * len(procs)
 
@@ -298,10 +300,11 @@ def run_model(lines):
     th = [threading.Thread(target=feed, args=(i, p, s)) for i, (p, s) in enumerate(procs)]
     [t.start() for t in th]
     [t.join() for t in th]
-    res = []
-    for (p, s), o in zip(procs, outs):
-        o = o or []
-        res.extend(o + ['MODELCRASH'] * (len(s) - len(o)))
+    res = [None] * len(lines)
+    for i, ((p, s), o) in enumerate(zip(procs, outs)):
+        o = (o or [])
+        o = o + ['MODELCRASH'] * (len(s) - len(o))
+        res[i::n] = o[:len(s)]
     return res
 
 
